@@ -39,11 +39,9 @@ func rb64(v uint64) []byte { b := make([]byte, 8); binary.BigEndian.PutUint64(b,
 
 // plainFragment returns moof+mdat with one traf and one trun of n samples
 // (sizes 5+i). tfFlags are the tf_flags (0x08/0x10/0x20: default duration, size
-// and flags, unused because the trun carries its own; 0x000001 base-data-offset-present,
-// whose value then is the absolute position of the first payload byte, at+moof
-// size+mdat header; 0x020000 default-base-is-moof); trunOffset tells whether the
-// trun has a data_offset field (relative to the moof). at is the file position
-// of the moof.
+// and flags, unused because the trun carries its own; 0x000001 base-data-offset-present;
+// 0x020000 default-base-is-moof); trunOffset tells whether the trun has a
+// data_offset field. at is the file position of the moof.
 func plainFragment(at int, seq uint32, tfFlags uint32, trunOffset bool, n int, largeMdat bool) []byte {
 	build := func(base uint64, off uint32) []byte {
 		tf := [][]byte{rb32(tfFlags), rb32(1)}
@@ -77,11 +75,13 @@ func plainFragment(at int, seq uint32, tfFlags uint32, trunOffset bool, n int, l
 		hdr = 16
 	}
 	sz := len(build(0, 0))
-	off := uint32(sz + hdr)
-	if tfFlags&1 != 0 {
-		off = 0 // relative to base_data_offset, which points at the payload
+	// base_data_offset: the first payload byte when the trun has no data_offset, else the moof
+	// start with data_offset relative to it
+	base := uint64(at + sz + hdr)
+	if trunOffset {
+		base = uint64(at)
 	}
-	moof := build(uint64(at+sz+hdr), off)
+	moof := build(base, uint32(sz+hdr))
 	var payload []byte
 	for i := 0; i < n; i++ {
 		for k := 0; k < 5+i; k++ {
@@ -104,8 +104,8 @@ type namedSeed struct {
 // fragmentAddressingSeeds are small fragment sequences without init segment:
 // the lattice (base-data-offset-present, default-base-is-moof, data-offset-
 // present in the only trun) x (with/without styp) plus two-fragment and
-// 64-bit-mdat members; and the fragmented corpus files rewritten by
-// gen/frag.Readdress with fixed PRNG seeds.
+// 64-bit-mdat members; and up to 16 rewritings of fragmented corpus files of at
+// most 64 KiB by gen/frag.Readdress with fixed PRNG seeds.
 func fragmentAddressingSeeds(cor *corpus.Corpus) []namedSeed {
 	var out []namedSeed
 	styp := rawBox("styp", []byte("msdh"), rb32(0), []byte("msdhmsix"))
@@ -133,10 +133,10 @@ func fragmentAddressingSeeds(cor *corpus.Corpus) []namedSeed {
 	// corpus files, data addressing rewritten
 	n := 0
 	for _, f := range cor.Files {
-		if len(f.Data) > MaxFileLen || !bytes.Contains(f.Data, []byte("moof")) {
+		if len(f.Data) > 64<<10 || !bytes.Contains(f.Data, []byte("moof")) {
 			continue
 		}
-		for v := uint64(0); v < 2 && n < 24; v++ {
+		for v := uint64(0); v < 2 && n < 16; v++ {
 			r := runner.NewRand(0xadd7e55, uint64(len(f.Data)), v)
 			nb, _, err := genfrag.Readdress(f.Data, r)
 			if err != nil {
@@ -150,43 +150,42 @@ func fragmentAddressingSeeds(cor *corpus.Corpus) []namedSeed {
 }
 
 // PartsOf returns, for an input that decodes to a fragmented file, one media
-// segment and one of its fragments per file decode path as structures of their
+// segment and one of its fragments (per file decode path for unmutated seeds
+// and replays, else through one of the two paths) as structures of their
 // own (MediaSegment.Encode / Fragment.Encode are public entry points that a
 // segmenter calls on decoded structures), 1 in 4 with trun optimisation on.
 func PartsOf(c *runner.Ctx, in Input) []Struct {
 	var out []Struct
-	for _, path := range FilePaths {
+	paths := FilePaths
+	if in.Gen != "seed" && in.Gen != "replay" {
+		paths = []string{FilePaths[c.Rand.Intn(len(FilePaths))]}
+	}
+	for _, path := range paths {
 		path := path
 		d := Decode(c, path, in.Data)
 		if !d.OK || d.File == nil || !d.File.IsFragmented() || len(d.File.Segments) == 0 {
 			continue
 		}
 		x := in.Data[:d.Consumed]
-		si := c.Rand.Intn(len(d.File.Segments))
-		seg := d.File.Segments[si]
-		fi := -1
-		if len(seg.Fragments) > 0 {
-			fi = c.Rand.Intn(len(seg.Fragments))
-		}
-		for _, level := range []string{"MediaSegment", "Fragment"} {
-			level := level
-			if level == "Fragment" && fi < 0 {
-				continue
+		nseg := len(d.File.Segments)
+		add := func(si, fi int, opt bool) {
+			level, nfr := "MediaSegment", len(d.File.Segments[si].Fragments)
+			if fi >= 0 {
+				level = "Fragment"
 			}
-			opt := c.Rand.Chance(1, 4)
 			kind := "decoded/" + path + "/" + level
 			if opt {
 				kind += ",optimize"
 			}
 			out = append(out, Struct{Kind: kind, Decoded: true, Optimize: opt, Input: x,
-				Desc: fmt.Sprintf("%s | %s | segment %d of %d, fragment %d of %d", in.Name, in.Desc, si, len(d.File.Segments), fi, len(seg.Fragments)),
+				Desc: fmt.Sprintf("%s | %s | segment %d of %d, fragment %d of %d", in.Name, in.Desc, si, nseg, fi, nfr),
 				New: func() Encodable {
 					dd := Decode(c, path, x)
 					if !dd.OK || dd.File == nil || si >= len(dd.File.Segments) {
 						return nil
 					}
 					sg := dd.File.Segments[si]
-					if level == "MediaSegment" {
+					if fi < 0 {
 						if opt {
 							sg.EncOptimize = mp4.OptimizeTrun
 						}
@@ -201,6 +200,23 @@ func PartsOf(c *runner.Ctx, in Input) []Struct {
 					}
 					return fr
 				}})
+		}
+		if in.Gen == "replay" {
+			// a witness: every segment and fragment (up to 8 each), with and without optimisation
+			for si := 0; si < nseg && si < 8; si++ {
+				for _, opt := range []bool{false, true} {
+					add(si, -1, opt)
+					for fi := 0; fi < len(d.File.Segments[si].Fragments) && fi < 8; fi++ {
+						add(si, fi, opt)
+					}
+				}
+			}
+			continue
+		}
+		si := c.Rand.Intn(nseg)
+		add(si, -1, c.Rand.Chance(1, 4))
+		if n := len(d.File.Segments[si].Fragments); n > 0 {
+			add(si, c.Rand.Intn(n), c.Rand.Chance(1, 4))
 		}
 	}
 	return out
@@ -337,12 +353,32 @@ func fromSidxRecipe(c *runner.Ctx, recipe string, f map[string]string) []Struct 
 		}
 	case "file":
 		// a decoded file (styp, sidx, moof, mdat written by hand and by the API with small values)
-		// whose segment index is then brought up to date through the public fields
+		// whose segment index is then brought up to date through the public fields; or (how=create)
+		// a file assembled from API-made boxes through File.AddChild
 		kind = "api/File[decoded, sidx fields set," + how + "]"
+		if how == "create" {
+			kind = "api/File[AddChild, sidx create]"
+		}
 		build = func() Encodable {
 			fr := mkFrag()
 			if fr == nil {
 				return nil
+			}
+			if how == "create" {
+				// a file put together through File.AddChild: styp, sidx, moof, mdat
+				sx := mkSidx()
+				if sx == nil {
+					return nil
+				}
+				fl := mp4.NewFile()
+				var pos uint64
+				for _, b := range append([]mp4.Box{mp4.NewMediaSegment().Styp, sx}, fr.Children...) {
+					fl.AddChild(b, pos)
+					pos += b.Size()
+				}
+				// (segment mode only: in box-tree mode the moof of an API-made fragment is refused,
+				// its data offset is only set by Fragment.Encode)
+				return fl
 			}
 			var buf bytes.Buffer
 			buf.Write(rawBox("styp", []byte("msdh"), rb32(0), []byte("msdhmsix")))
